@@ -411,7 +411,10 @@ fn hook_body(id: usize, ax: &mut Axecutor, m: SupportedMnemonic) -> Result<HookR
     }
     let mut inner = None;
     if reg_inside {
-        inner = Some(ax.hook_before_mnemonic_native(SupportedMnemonic::Nop, hook_fn(63)).is_err());
+        // both ways of registering: a plain hook and a built-in syscall handler
+        let r1 = ax.hook_before_mnemonic_native(SupportedMnemonic::Nop, hook_fn(63)).is_err();
+        let r2 = ax.handle_syscalls(vec![ax_x86::helpers::syscalls::Syscall::Brk]).is_err();
+        inner = Some(r1 && r2);
     }
     EVENTS.with(|e| {
         e.borrow_mut().push(Event {
